@@ -130,6 +130,15 @@ theorem builtin_rdRead (st : St) (n : Nat) : builtin .rdRead [.int n] st =
   | none => rfl
   | some p => rfl
 
+theorem builtin_insert (st : St) (id : Nat) (a : Bytes) (t : Template) :
+    builtin .insert [.int id, .bytes a, .tpl t] st = some ({ st with cache := st.cache.insert a id t }, [], []) := rfl
+
+theorem builtin_retrieve (st : St) (id : Nat) (a : Bytes) :
+    builtin .retrieve [.int id, .bytes a] st =
+      match st.cache.lookup a id with
+      | some t => some (st, [], [.tpl t, .bool true])
+      | none => some (st, [], [.tpl ⟨0, 0, 0, [], []⟩, .bool false]) := rfl
+
 /-! ## field selection -/
 
 section fields
@@ -202,7 +211,7 @@ macro "ir_simp" "[" ls:Lean.Parser.Tactic.simpLemma,* "]" : tactic =>
   `(tactic| simp [blk, exec, eval, evalList, evalArgs, zero, wrap, binInt, veq, lenV, indexV, appendV, elemsV,
       readLHS, writeLHS, writeAll, getPath, setPath, readSlots, refSlots, errReader, List.replicate, List.filter,
       errClasses, errConsts, List.lookup,
-      ParamKind.hasSlot, builtin_rdU8, builtin_rdU16, builtin_rdU32, builtin_rdPeekU16, builtin_rdRead, $ls,*])
+      ParamKind.hasSlot, builtin_rdU8, builtin_rdU16, builtin_rdU32, builtin_rdPeekU16, builtin_rdRead, builtin_insert, builtin_retrieve, $ls,*])
 
 /-! ## `getDataLength` -/
 
